@@ -12,7 +12,7 @@ STATS = G.STATS
 KIND = {'curve': 'c', 'surface': 's', 'volume': 'v'}
 PARTIAL = [
     "the tie between the list program A5.1 (`temp` triangle with in-place updates, edge writes) and the model's index-by-index output is the correspondence, not a Lean theorem",
-    "object level (Props/C04.lean, insertKnot_preserves_surface / _volume, insert_call_sequence_preserves_surface / _volume): one insert_knot call with any subset of the directions of a surface or a volume, and any sequence of such calls, completes and preserves well-formedness, the domain and every evaluated point at every parameter of the domain - under the explicit hypothesis that every requested direction is admissible (DirReqOk: parameter in the half-open domain [U_p, U_n), the multiplicity s computed by find_multiplicity is a run ending at the span, r + s <= p; derivable from tolerance separation by insert_request_admissible); a direction rejected by the multiplicity check leaves the earlier directions applied and the points unchanged (insertKnot_partial_application_*). NOT covered by a theorem: a parameter outside the half-open domain of its direction (e.g. u = U_n), check=False with r + s > p, and curve objects at Shape level (curves are proved at helper level: insert_sequence_preserves)",
+    "object level (Props/C04.lean, insertKnot_preserves_surface / _volume, insert_call_sequence_preserves_surface / _volume): one insert_knot call with any subset of the directions of a surface or a volume, and any sequence of such calls, completes and preserves well-formedness, the domain and every evaluated point at every parameter of the domain - under the explicit hypothesis that every requested direction is admissible (DirReqOk: parameter in the half-open domain [U_p, U_n), the multiplicity s computed by find_multiplicity is a run ending at the span, r + s <= p; derivable from tolerance separation by insert_request_admissible); a direction rejected by the multiplicity check leaves the earlier directions applied and the points unchanged (insertKnot_partial_application_*). NOT covered by a theorem: a parameter outside the half-open domain of its direction (e.g. u = U_n), check=False with r + s > p, and curve objects at Shape level (curves are proved at helper level: insert_sequence_preserves - points unchanged on the closed domain AND the final state CurveWF with both domain ends unchanged; insert_net_length: r more points, each of the same dimension)",
     "rational objects: the theorems are about the homogeneous net (coordinatewise, weight coordinate included); the projection is C01/C09's",
 ]
 
